@@ -536,6 +536,53 @@ func runSharedOptions(w *hx.Worker) {
 	}
 }
 
+// runTypedLiterals (C01): the same literal text with different type constraints in one grammar. With the
+// default lexer and Unquote, `x` is an Ident with value x and `"x"` a String with value x: `"x":Ident` takes
+// the first only, `"x":String` the second only, a plain `"x"` either.
+func runTypedLiterals(w *hx.Worker) {
+	cons := []string{"", "Ident", "String"}
+	tag := func(c string) string {
+		if c == "" {
+			return `@"x"`
+		}
+		return `@"x":` + c
+	}
+	toks := []struct{ text, typ string }{{"x", "Ident"}, {`"x"`, "String"}}
+	for _, ca := range cons {
+		for _, cb := range cons {
+			for _, cc := range cons {
+				st := reflect.StructOf([]reflect.StructField{
+					{Name: "A", Type: reflect.TypeOf(""), Tag: reflect.StructTag(tag(ca))},
+					{Name: "B", Type: reflect.TypeOf(""), Tag: reflect.StructTag(tag(cb))},
+					{Name: "C", Type: reflect.TypeOf(""), Tag: reflect.StructTag("( " + tag(cc) + " )?")},
+				})
+				p, err := participle.Build[any](participle.Unquote("String"), participle.Union[any](reflect.New(st).Elem().Interface()))
+				name := fmt.Sprintf("typed literals :: A `%s`; B `%s`; C `( %s )?`", tag(ca), tag(cb), tag(cc))
+				if err != nil {
+					w.Violate(hx.Violation{Key: name, Class: "build-failed", Detail: map[string]any{"err": err.Error()}})
+					continue
+				}
+				for _, t1 := range toks {
+					for _, t2 := range toks {
+						for _, t3 := range append(toks, struct{ text, typ string }{"", ""}) {
+							in := strings.TrimSpace(t1.text + " " + t2.text + " " + t3.text)
+							fits := func(c, typ string) bool { return c == "" || c == typ }
+							want := fits(ca, t1.typ) && fits(cb, t2.typ) && (t3.text == "" || fits(cc, t3.typ))
+							w.Count("evaluations", 1)
+							var perr error
+							pan, msg := hx.Guard(func() { _, perr = p.ParseString("", in) })
+							if pan || (perr == nil) != want {
+								w.Violate(hx.Violation{Key: name + fmt.Sprintf(" :: in=%q", in), Class: map[bool]string{true: "impl-rejects-model-accepts", false: "impl-accepts-model-rejects"}[want], Detail: map[string]any{"error": fmt.Sprint(perr), "panic": msg}})
+							}
+							w.DistinctS(fmt.Sprint("tl", ca, cb, cc, in, want))
+						}
+					}
+				}
+			}
+		}
+	}
+}
+
 // runPumped: long flat inputs through choice points (size-triggered behaviour such as flushing deferred
 // captures after N pending ones must not exist): the AST still equals the reference derivation.
 func runPumped(w *hx.Worker, prop string) {
@@ -900,6 +947,9 @@ func plan(c *hx.Ctx) *hx.Plan {
 			}
 			if (c.Prop == "C01" || c.Prop == "C02") && i == len(grs) {
 				runPumped(w, c.Prop)
+				if c.Prop == "C01" {
+					runTypedLiterals(w)
+				}
 				return
 			}
 			if c.Prop == "C10" && i == len(grs) {
